@@ -52,7 +52,7 @@ fn finalize(_t: Tier, _p: &Plan, rep: &mut Report) {
 
 // ---- (a) JSON ---------------------------------------------------------------------------------
 
-fn gen_string(rng: &mut Rng) -> String {
+pub fn gen_string(rng: &mut Rng) -> String {
 	let pool: Vec<char> = vec![
 		'"', '\\', '/', '\n', '\r', '\t', '\u{8}', '\u{c}', '\u{0}', '\u{1}', '\u{1f}', '\u{7f}', '\u{80}', '\u{9f}', '\u{a0}', '\u{2028}', '\u{2029}', '\u{feff}', '\u{fffd}', '\u{ffff}', '\u{10000}', '\u{1d11e}', '\u{10ffff}', 'ä', '€', '名', 'a', 'b', 'z', '0', ' ', ':', ',', '{', '}', '[', ']', 'u', 'n',
 	];
@@ -77,7 +77,7 @@ fn gen_number(rng: &mut Rng) -> f64 {
 	}
 }
 
-fn gen_json(rng: &mut Rng, depth: u32) -> JsonValue {
+pub fn gen_json(rng: &mut Rng, depth: u32) -> JsonValue {
 	let leaf = depth == 0 || rng.chance(0.45);
 	if leaf {
 		return match rng.below(6) {
@@ -237,9 +237,9 @@ fn json_case(cx: &CaseCtx, rep: &mut Report, rng: &mut Rng) {
 
 // ---- (b), (c) TileJSON -----------------------------------------------------------------------
 
-struct Doc {
-	text: String,
-	value: Value,
+pub struct Doc {
+	pub text: String,
+	pub value: Value,
 	minzoom: Option<u8>,
 	maxzoom: Option<u8>,
 	bounds: Option<[f64; 4]>,
@@ -249,7 +249,7 @@ fn esc(s: &str) -> String {
 	serde_json::to_string(s).unwrap()
 }
 
-fn gen_doc(rng: &mut Rng, ts: &TileSet) -> Doc {
+pub fn gen_doc(rng: &mut Rng, ts: &TileSet) -> Doc {
 	let mut m = serde_json::Map::new();
 	m.insert("tilejson".into(), json!("3.0.0"));
 	for key in ["name", "description", "attribution", "version", "legend", "scheme", "custom key \"q\""] {
